@@ -2,6 +2,7 @@ package types
 
 import (
 	"reflect"
+	"slices"
 	"sync"
 )
 
@@ -109,6 +110,8 @@ func (e *emmiter) GetMaxListeners() uint {
 }
 
 func (e *emmiter) addListeners(evt EventName, listeners []*eventEntry) error {
+	// nil listeners are ignored: an entry without a function can neither be called nor removed
+	listeners = slices.DeleteFunc(listeners, func(l *eventEntry) bool { return l == nil })
 	if len(listeners) == 0 {
 		return nil
 	}
